@@ -96,8 +96,15 @@ Proof. unfold impl_addrs. rewrite fold_left_app. reflexivity. Qed.
 Lemma final_snoc dn own h ev : final dn own (h ++ [ev]) = fst (mstep dn own (final dn own h) ev).
 Proof. unfold final, mrun. rewrite fold_left_app. reflexivity. Qed.
 
+(* the code accepts exactly the records the property calls valid (Txt.validation_agrees) *)
+Lemma spec_entry_agrees own ev : spec_entry own ev = ev_entry own ev.
+Proof.
+  unfold spec_entry, ev_entry. rewrite <- validation_agrees.
+  destruct (entry_of_txt own (v_txt ev)); reflexivity.
+Qed.
+
 Lemma annotate_snoc own h ev : annotate own (h ++ [ev]) = annotate own h ++ [(ev_entry own ev, ev)].
-Proof. unfold annotate. rewrite map_app. reflexivity. Qed.
+Proof. unfold annotate. rewrite map_app. cbn [map]. rewrite spec_entry_agrees. reflexivity. Qed.
 
 Lemma filter_snoc {A} (f : A -> bool) l x : filter f (l ++ [x]) = filter f l ++ (if f x then [x] else []).
 Proof. rewrite filter_app. reflexivity. Qed.
